@@ -24,6 +24,7 @@ import TraitsVerif.Lemmas.PersistObject
 import TraitsVerif.Lemmas.PersistLive
 import TraitsVerif.Lemmas.PersistClone
 import TraitsVerif.Lemmas.CTabIndex
+import TraitsVerif.Generated.CopyChains
 namespace TraitsVerif.Props.C14
 open TraitsVerif TraitsVerif.Model.Persist TraitsVerif.Lemmas.Persist
 
@@ -48,6 +49,21 @@ theorem C14_values {E : Env} (hI : Idem E) (hC : CopyStable E) {s : Obj} (hw : W
   intro hp
   obtain ⟨v, w, a1, a2, a3, _⟩ := r.pers hp
   exact ⟨v, w, a1, a2, a3⟩
+
+/-- Non-vacuity of `C14_values` for a DYNAMIC default that nobody has read:
+`ident = Int()` with a serial-number `_ident_default`.  `__getstate__` reads it
+(computing it once, on the original: 5 here), the copy holds that value - not
+the one a fresh computation on the copy would give - and the original keeps
+reporting it. -/
+example :
+    let d : Decl := { name := "ident", shape := .leafT 0, dyn := true }
+    let s : Obj := ⟨1, [⟨d, none⟩]⟩
+    (match pickleRoundTrip E0 s 2 5 with
+      | .ok c => (c.copy.slots.map (fun sl => sl.val.map ids), c.orig.slots.map (fun sl => sl.val.isSome),
+                  c.copy.slots.map (fun sl => match sl.val with | some (.leaf (.int n)) => n | _ => -1),
+                  c.orig.slots.map (fun sl => match sl.val with | some (.leaf (.int n)) => n | _ => -1))
+      | .error _ => ([], [], [], [])) = ([some []], [true], [5], [5]) := by
+  decide
 
 /-- **Re-binding.**  In the restored object every container at a declared
 position - the value of a `List`/`Dict`/`Set` trait and every container nested
@@ -247,6 +263,29 @@ theorem C14_nested_mode (arg childMeta : Option CopyMode) (uncopyable : Bool) :
       valueFate (effMode childMeta (some .deep)) false := by
   refine ⟨rfl, rfl, rfl⟩
 
+/-- **One rule, two loops.**  `copy_traits` decides what to do with a value in
+two places - the main loop and the loop over the deferred traits (delegates and
+properties).  The two if/elif chains, as TRANSLATED from the working tree, are
+the same chain and are the chain the model transcribes; and the two model
+functions agree for every metadata and every argument: a `Property(…,
+copy="ref")` or a `WeakRef` back pointer is shared in every mode exactly as an
+ordinary trait with `copy="ref"` is. -/
+theorem C14_copy_chains_agree :
+    Generated.CopyChains.mainChain = Generated.CopyChains.deferredChain ∧
+    Generated.CopyChains.mainChain.map (·.1) =
+      ["copy_type == 'shallow'", "copy_type == 'ref'", "copy_type == 'deep' or deep_copy", "shallow_copy"] ∧
+    (∀ md arg, effModeDeferred md arg = effMode md arg) ∧
+    (∀ outer md u, outer ≠ .pickle → deferredFate outer md u = valueFate (effMode md outer.arg) u) := by
+  have e : ∀ md arg, effModeDeferred md arg = effMode md arg := by
+    intro md arg
+    rcases md with _ | md <;> rcases arg with _ | arg <;> (try cases md) <;> (try cases arg) <;> rfl
+  refine ⟨by decide, by decide, e, ?_⟩
+  intro outer md u h
+  cases outer with
+  | clone arg => simp [deferredFate, e]
+  | deepcopy => simp [deferredFate, e]
+  | pickle => exact absurd rfl h
+
 /-- **Transient traits stay at their defaults in a clone** (`clone_traits` with
 any `copy` argument, hence also `copy.deepcopy`): a transient trait is never in
 the clone's `__dict__`.  Before the F72 repair this failed for objects none of
@@ -323,7 +362,7 @@ example : Idem E0 ∧ CopyStable E0 ∧ WFObj E0 exObj ∧ BelowAll 3 exObj.slot
   · intro sl hs
     simp only [exObj, List.mem_singleton] at hs
     subst hs
-    refine ⟨.node (fun _ => by simp) (fun _ h => by cases h) (fun _ h => by cases h), ?_⟩
+    refine ⟨fun _ => .node (fun _ => by simp) (fun _ h => by cases h) (fun _ h => by cases h), ?_⟩
     intro v hv
     cases hv
     refine .node (fun _ => by simp) (fun _ h => by cases h) ?_
